@@ -440,8 +440,15 @@ class Gen:
         tips = sorted(rng.sample(range(1, 9), n))
         flat = [well_id(r, c) for r in rows]
         if not canonical:
-            rng.shuffle(flat)
-            if rng.random() < 0.5:
+            # wells and/or tips in another order than ascending: the EVO still serves ascending wells with
+            # ascending tips, so only the *wells* order matters for what each well gets (tips order is legal)
+            r = rng.random()
+            if r < 0.5:
+                rng.shuffle(tips)
+            elif r < 0.75:
+                rng.shuffle(flat)
+            else:
+                rng.shuffle(flat)
                 rng.shuffle(tips)
         wells = [geo.real(w) for w in flat]
         direction = "rm" if kind == "evo_aspirate" else "add"
